@@ -167,6 +167,85 @@ theorem pol_ok_10min : PolicyOK (pol (600 * sec) (120 * sec) sec) :=
 theorem pol_ok_hour60 : PolicyOK (pol hour (60 * sec) sec) :=
   ⟨by decide, by decide, fun _ => ⟨1, by decide⟩⟩
 
+/-! ### creation stamps (`newKeyTimestamp`) -/
+
+/-- a stamp never lies in the future: `time.Unix(stamp,0) ≤ now` for every clock value and every
+precision (so a key created now is never "from the future" for its creator). -/
+theorem stamp_not_in_future (now prec : Int) :
+    keyTimestamp now prec * nsPerSec ≤ now := by
+  unfold keyTimestamp
+  have hs : (0 : Int) < nsPerSec := by decide
+  split
+  · rename_i hp
+    have h1 : 0 ≤ now % prec := Int.emod_nonneg _ (by omega)
+    have h2 := Int.ediv_mul_le (now - now % prec) (Int.ne_of_gt hs)
+    omega
+  · have h2 := Int.ediv_mul_le now (Int.ne_of_gt hs)
+    omega
+
+/-- a stamp is younger than one precision window plus one second. -/
+theorem stamp_window (now prec : Int) :
+    now < keyTimestamp now prec * nsPerSec + (if prec > 0 then prec else 0) + nsPerSec := by
+  unfold keyTimestamp
+  have hs : (0 : Int) < nsPerSec := by decide
+  split
+  · rename_i hp
+    have h2 : now % prec < prec := Int.emod_lt_of_pos _ hp
+    have h3 := Int.lt_ediv_add_one_mul_self (now - now % prec) hs
+    rw [Int.add_mul] at h3
+    omega
+  · have h3 := Int.lt_ediv_add_one_mul_self now hs
+    rw [Int.add_mul] at h3
+    omega
+
+/-- stamps are monotone in the clock: a later creator never stamps an older key, which is what
+makes "greatest created" the latest key. -/
+theorem stamp_mono {now now' : Int} (prec : Int) (h : now ≤ now') :
+    keyTimestamp now prec ≤ keyTimestamp now' prec := by
+  unfold keyTimestamp
+  have hs : (0 : Int) < nsPerSec := by decide
+  split
+  · rename_i hp
+    apply Int.ediv_le_ediv hs
+    have e1 : now - now % prec = prec * (now / prec) := by
+      have := Int.emod_add_mul_ediv now prec; omega
+    have e2 : now' - now' % prec = prec * (now' / prec) := by
+      have := Int.emod_add_mul_ediv now' prec; omega
+    rw [e1, e2]
+    exact Int.mul_le_mul_of_nonneg_left (Int.ediv_le_ediv hp h) (Int.le_of_lt hp)
+  · exact Int.ediv_le_ediv hs h
+
+/-- two creators inside one precision window produce the SAME stamp — the collision that turns
+concurrent key creation into one accepted insert and one refused duplicate (C14). -/
+theorem stamp_same_window {now now' prec : Int} (hp : 0 < prec) (h : now / prec = now' / prec) :
+    keyTimestamp now prec = keyTimestamp now' prec := by
+  unfold keyTimestamp
+  rw [if_pos hp, if_pos hp]
+  have e1 : now - now % prec = prec * (now / prec) := by
+    have := Int.emod_add_mul_ediv now prec; omega
+  have e2 : now' - now' % prec = prec * (now' / prec) := by
+    have := Int.emod_add_mul_ediv now' prec; omega
+  rw [e1, e2, h]
+
+/-- expiry is permanent: once a key is expired under a lifetime it stays expired as the clock
+moves on (the clock of the model, like the SDK's wall clock in the property, never runs backwards). -/
+theorem expired_stays_expired {now now' c e : Int} (h : now ≤ now') (hx : isExpired now c e = true) :
+    isExpired now' c e = true := by
+  rw [isExpired_iff] at *; omega
+
+/-- a key is valid for at least `lifetime − precision − 1 s` after its creation moment: the stamp
+truncation costs at most one window. -/
+theorem fresh_key_valid_for {now later prec e : Int}
+    (hl : later + (if prec > 0 then prec else 0) + nsPerSec ≤ now + e) :
+    isExpired later (keyTimestamp now prec) e = false := by
+  rw [isExpired_false_iff]
+  have := stamp_window now prec
+  omega
+
+/-- non-vacuity: the default-like policy (1 h lifetime, 1 s precision) meets the premise for a full
+59 minutes after creation. -/
+example : isExpired (T0 + 59 * 60 * sec) (keyTimestamp T0 sec) hour = false := by decide
+
 /-! ### the excluded configuration: `CreateDatePrecision > ExpireKeyAfter` -/
 
 /-- one-day precision, one-hour lifetime. -/
